@@ -99,10 +99,15 @@ func policies() []policy {
 // replicating its OLD-term entry to a majority; then the second server returns and is elected. Safe Raft never
 // counts the old-term entry as committed on replica count alone. Phases are (eligible servers, who may time out,
 // goal, step budget); partitions are starvation, so every schedule is one the real system can produce.
-func figure8(rs *adapters.RaftSim, seed int64) {
+func figure8(rs *adapters.RaftSim, seed int64) { scripted(rs, "figure-8") }
+
+// scripted installs a phase script: (eligible servers, who may time out, goal, step budget) per phase.
+// "re-election" (3 servers): elect 1, let clients get entries committed (so the leader's matchIndex/nextIndex are
+// non-trivial), depose it by electing 2, then elect 1 again: the step in which a server becomes leader for the second
+// time must re-initialise its bookkeeping exactly as the spec says.
+func scripted(rs *adapters.RaftSim, variant string) {
 	s := rs.Sched
 	st := s.Store
-	base := s.Eligible
 	srvOf := func(p *simsched.Proc) int {
 		var n int
 		if _, err := fmt.Sscanf(p.Group, "srv%d", &n); err != nil {
@@ -114,21 +119,26 @@ func figure8(rs *adapters.RaftSim, seed int64) {
 	term := func(i int) int { return int(st.Get("currentTerm").ApplyFunction(simsched.N(i)).AsNumber()) }
 	logLen := func(i int) int { return st.Get("log").ApplyFunction(simsched.N(i)).AsTuple().Len() }
 	commit := func(i int) int { return int(st.Get("commitIndex").ApplyFunction(simsched.N(i)).AsNumber()) }
-	type phase struct {
-		name        string
-		servers     map[int]bool // servers whose archetypes may run
-		aserverOnly map[int]bool // of those, servers restricted to their AServer (message handling) archetype
-		clients     bool
-		lt          int // server whose election timer may fire
-		goal        func() bool
-		budget      int
-	}
 	all := func(xs ...int) map[int]bool {
 		m := map[int]bool{}
 		for _, x := range xs {
 			m[x] = true
 		}
 		return m
+	}
+	if variant == "re-election" {
+		t1 := 0
+		phasesRe := []phase{
+			{"elect-1", all(1, 2, 3), nil, true, 1, func() bool { t1 = term(1); return state(1) == "leader" }, 400},
+			{"serve-clients", all(1, 2, 3), nil, true, 0, func() bool { return commit(1) >= 1 && commit(2) >= 1 }, 500},
+			{"elect-2", all(1, 2, 3), nil, true, 2, func() bool { return state(2) == "leader" && term(2) > t1 }, 500},
+			{"serve-clients-2", all(1, 2, 3), nil, true, 0, func() bool { return commit(2) >= 2 && logLen(1) == logLen(2) }, 400},
+			{"catch-up-1", all(1, 2, 3), nil, true, 0, func() bool { return logLen(1) == logLen(2) && logLen(3) == logLen(2) }, 300},
+			{"elect-1-again", all(1, 2, 3), nil, true, 1, func() bool { return state(1) == "leader" && term(1) > term(2) }, 600},
+			{"serve-clients-3", all(1, 2, 3), nil, true, 0, func() bool { return false }, 60},
+		}
+		installPhases(rs, phasesRe, srvOf, state, false)
+		return
 	}
 	phases := []phase{
 		{"elect-1", all(1, 2, 3, 4, 5), nil, false, 1, func() bool { return state(1) == "leader" }, 400},
@@ -140,10 +150,28 @@ func figure8(rs *adapters.RaftSim, seed int64) {
 		{"elect-5-without-1", all(2, 3, 4, 5), nil, false, 5, func() bool { return state(5) == "leader" && term(5) > term(1) }, 900},
 		{"5-overwrites", all(2, 3, 4, 5), nil, false, 0, func() bool { return false }, 200},
 	}
+	installPhases(rs, phases, srvOf, state, true)
+}
+
+type phase struct {
+	name        string
+	servers     map[int]bool // servers whose archetypes may run
+	aserverOnly map[int]bool // of those, servers restricted to their AServer (message handling) archetype
+	clients     bool
+	lt          int // server whose election timer may fire
+	goal        func() bool
+	budget      int
+}
+
+func installPhases(rs *adapters.RaftSim, phases []phase, srvOf func(*simsched.Proc) int, state func(int) string, delayOldLeader bool) {
+	s := rs.Sched
+	base := s.Eligible
 	cur, since, lastStep := 0, 0, -1
 	rs.Params["fig8_goals_met"] = 0
-	// while 5 is being elected for the second time the old leader's traffic to it stays in flight
-	rs.LinkDelay = func(dest, src int) bool { return cur >= 6 && dest == 5 && src == 1 }
+	if delayOldLeader {
+		// while 5 is being elected for the second time the old leader's traffic to it stays in flight
+		rs.LinkDelay = func(dest, src int) bool { return cur >= 6 && dest == 5 && src == 1 }
+	}
 	s.Eligible = func(p *simsched.Proc, step int) bool {
 		if base != nil && !base(p, step) {
 			return false
@@ -157,9 +185,13 @@ func figure8(rs *adapters.RaftSim, seed int64) {
 				}
 				cur++
 				since = 0
+				rs.Params["phase"] = phases[cur].name
 			}
 		}
 		ph := phases[cur]
+		if cur == len(phases)-1 && since > ph.budget && !delayOldLeader {
+			return false // script finished: let the run end
+		}
 		switch p.Group {
 		case "client":
 			return ph.clients
@@ -178,7 +210,7 @@ func figure8(rs *adapters.RaftSim, seed int64) {
 	s.Choice = func(p *simsched.Proc, id string, ceiling uint) uint {
 		switch id {
 		case "coin.lt":
-			if n := srvOf(p); n == phases[cur].lt && (state(n) != "candidate" || s.Rng.Intn(100) < 4) {
+			if n := srvOf(p); n == phases[cur].lt && (state(n) != "candidate" || s.Rng.Intn(100) < 10) {
 				return 0 // below any bias: the timer fires (rarely again while already a candidate)
 			}
 			return ceiling - 1
@@ -213,6 +245,9 @@ func main() {
 	pols := policies()
 
 	runs := r.Pick(24, 3000)
+	if os.Getenv("C08_ONLY") == "tlc" { // development aid: only the TLC traces
+		runs = 0
+	}
 	steps := r.Pick(800, 1500)
 	evals, totSteps, totAborts := 0, 0, 0
 	labels := map[string]int{}
@@ -229,7 +264,7 @@ func main() {
 			o.MaxNodeFail = rng.Intn((ns-1)/2 + 1)
 		}
 		o.RealShared = i%3 == 0 // production LocalShared/IncMap binding of the plain per-server variables
-		if rng.Intn(5) == 0 { // election storm
+		if rng.Intn(5) == 0 {   // election storm
 			o.BiasLeaderTimeout = 25
 		}
 		pol := pols[i%len(pols)]
@@ -295,7 +330,7 @@ func main() {
 	})
 
 	// TLC on recorded traces (spec-exact requests so that the trace is a behaviour of the shipped spec)
-	tlcN := r.Pick(1, 24)
+	tlcN := r.Pick(3, 24)
 	tlcOK, tlcStates := 0, 0
 	common.Parallel(tlcN, 6, func(i int) {
 		seed := r.Seed*7_000_003 + int64(i)
@@ -306,8 +341,19 @@ func main() {
 		if ns == 3 {
 			o.MaxNodeFail = 1
 		}
+		tlcSteps := 250
+		reelect := i%3 == 1
+		if reelect { // scripted re-election: a server leads, is deposed, and leads again with non-trivial bookkeeping
+			o.NS, o.NC, o.MaxNodeFail = 3, 1, 0
+			ns = 3
+			tlcSteps = 1500
+		}
+		o.RealShared = i%2 == 1
 		rs := adapters.Raftkvs(seed, o)
-		out := rs.Run(250, true)
+		if reelect {
+			scripted(rs, "re-election")
+		}
+		out := rs.Run(tlcSteps, true)
 		if out.Result.Err != nil || len(out.States) < 10 {
 			mu.Lock()
 			if out.Result.Err != nil && !out.Result.MonitorErr {
@@ -322,6 +368,7 @@ func main() {
 		v := rs.Validate(scratch, out.States, 8*time.Minute)
 		mu.Lock()
 		defer mu.Unlock()
+		r.Note("tlc trace %d: NS=%d scripted-re-election=%v goals_met=%v states=%d becomeLeader_steps=%d verdict=%s idle=%v aborts=%d phase=%v state=%s terms=%s last=%v", i, ns, reelect, rs.Params["fig8_goals_met"], len(out.States), out.Labels["AServerBecomeLeader.serverBecomeLeaderLoop"], v.Kind, out.Result.EndedIdle, out.Result.Aborts, rs.Params["phase"], rs.Sched.Store.Get("state").String(), rs.Sched.Store.Get("currentTerm").String(), tailS(out.StepLog, 14))
 		switch v.Kind {
 		case "ok":
 			tlcOK++
@@ -338,7 +385,10 @@ func main() {
 		}
 	})
 
-	clusterEv := runClusters(r, scratch, &distinct, &samples)
+	clusterEv := clusterEvidence{extra: map[string]any{}}
+	if os.Getenv("C08_ONLY") == "" {
+		clusterEv = runClusters(r, scratch, &distinct, &samples)
+	}
 	evals += clusterEv.runs
 
 	var never []string
@@ -443,4 +493,11 @@ func replay(r *common.Run) {
 		}
 	}
 	r.FinishReplay(key)
+}
+
+func tailS(s []string, n int) []string {
+	if len(s) > n {
+		return s[len(s)-n:]
+	}
+	return s
 }
